@@ -158,8 +158,74 @@ class Engine:
         return LoudWalk(cfg, flag, flag_sources=sources, top_loop=top_node)
 
 
+def wrapper_rows(ctx, rule="C21.R6"):
+    """The ODE / DAE wrappers cannot truncate by slicing: the integrator itself stops, and `.t`, `.y`, `.yp` of its result hold exactly the
+    output instants it reached.  "Returns only converged steps" therefore means: every row field of the returned Solution derives from these
+    attributes.  The dense-output interpolant `.sol(...)` extrapolates beyond the last accepted step and the requested grid `self.t_eval` runs
+    to t1 whatever happened; a Solution built from either contains instants that were never integrated although the warning names the
+    stop time."""
+    rep = ctx.rep
+    for rel, cname, integ in (("cardillo/solver/scipy_ivp.py", "ScipyIVP", "solve_ivp"), ("cardillo/solver/scipy_dae.py", "ScipyDAE", "solve_dae")):
+        fn = ctx.repo.get(rel, f"{cname}.solve")
+        C = f"{rel}:{cname}.solve"
+        binds = {}
+        res = None
+        for n in ast.walk(fn):
+            if isinstance(n, ast.Assign) and len(n.targets) == 1:
+                t = n.targets[0]
+                if isinstance(t, ast.Name):
+                    binds.setdefault(t.id, []).append(n.value)
+                    if isinstance(n.value, ast.Call) and (dotted(n.value.func) or "").split(".")[-1] == integ:
+                        res = t.id
+                elif isinstance(t, ast.Tuple):
+                    for a in t.elts:
+                        if isinstance(a, ast.Name):
+                            binds.setdefault(a.id, []).append(n.value)
+        if res is None:
+            raise AnalysisError(f"{C}: call of {integ} not found")
+
+        def sources(e, seen):
+            """(attributes of the integrator result read, calls made on it, self.* attributes read)"""
+            attrs, calls, selfs = set(), set(), set()
+            for w in ast.walk(e):
+                if isinstance(w, ast.Call) and isinstance(w.func, ast.Attribute) and isinstance(w.func.value, ast.Name) and w.func.value.id == res:
+                    calls.add(w.func.attr)
+                elif isinstance(w, ast.Attribute) and isinstance(w.value, ast.Name) and w.value.id == res:
+                    attrs.add(w.attr)
+                elif isinstance(w, ast.Attribute) and isinstance(w.value, ast.Name) and w.value.id == "self" and isinstance(w.ctx, ast.Load):
+                    selfs.add(w.attr)
+                elif isinstance(w, ast.Name) and w.id != res and w.id in binds and w.id not in seen:
+                    seen.add(w.id)
+                    for v in binds[w.id]:
+                        a2, c2, s2 = sources(v, seen)
+                        attrs |= a2
+                        calls |= c2
+                        selfs |= s2
+            return attrs - calls, calls, selfs
+        rets = [n for n in ast.walk(fn) if isinstance(n, ast.Return) and isinstance(n.value, ast.Call) and (dotted(n.value.func) or "").split(".")[-1] == "Solution"]
+        if not rets:
+            raise AnalysisError(f"{C}: return Solution(...) not found")
+        for ret in rets:
+            for kw in ret.value.keywords:
+                if kw.arg not in ("t", "q", "u"):
+                    continue
+                attrs, calls, selfs = sources(kw.value, set())
+                grid = {a for a in selfs if a in ("t_eval", "t", "t1", "dt")}
+                if calls:
+                    rep.bad(rule, C, ret, f"the returned `{kw.arg}` is computed by calling `{res}.{sorted(calls)[0]}(...)` (the dense-output interpolant): after a failed integration it is evaluated beyond "
+                            "the last accepted step, so the Solution contains extrapolated states that were never integrated while the warning names the stop time", f"{rel}:{ret.lineno}")
+                elif grid:
+                    rep.bad(rule, C, ret, f"the returned `{kw.arg}` derives from the requested grid `self.{sorted(grid)[0]}`, which runs to t1 whether or not the integrator got there", f"{rel}:{ret.lineno}")
+                elif attrs and attrs <= {"t", "y", "yp"}:
+                    rep.ok(rule, C, f"returned `{kw.arg}` derives from {', '.join(res + '.' + a for a in sorted(attrs))} (the instants the integrator reached)")
+                else:
+                    rep.ok(rule, C, f"returned `{kw.arg}`: sources {sorted(attrs)} not classified (no verdict)", verdict="unknown", trivial=True)
+
+
 def run(ctx):
     rep = ctx.rep
+    rep.rule("C21.R6", "the ODE / DAE wrappers build t, q, u of the returned Solution from the integrator's own outputs (.t, .y, .yp), never from the dense-output interpolant or the requested grid: after a failure only integrated instants are returned", 6)
+    wrapper_rows(ctx)
     rep.rule("C21.R1", "no silent escape of a possibly-false convergence flag", 15)
     rep.rule("C21.R1b", "proceeding with an unconverged step only when continue_with_unconverged is true", 8)
     rep.rule("C21.R2", "truncated returns warn with the time and carry no failed-step data", 4)
@@ -449,4 +515,15 @@ NEUTRAL += [
 MUTANTS += [
     dict(id="c21-r5-1", canary=True, what="static Newton's truncated return includes the load step that did not converge", file="cardillo/solver/statics.py",
          old="                    q=self.x[:i, : self.split_x[0]],", new="                    q=self.x[: i + 1, : self.split_x[0]],", expect="C21.R5"),
+]
+
+MUTANTS += [
+    dict(id="c21-r6-seed", canary=True, what="[seeded by sub-agent] ScipyIVP builds the Solution from the dense output on the full requested grid (extrapolates past a failure)", file='cardillo/solver/scipy_ivp.py',
+         old="        t = sol.t\n        nt = len(t)\n        q = sol.y[: self.nq, :].T\n        u = sol.y[self.nq :, :].T\n",
+         new="        t = self.t_eval\n        nt = len(t)\n        y = sol.sol(t)\n        q = y[: self.nq, :].T\n        u = y[self.nq :, :].T\n", expect="C21.R6"),
+]
+NEUTRAL += [
+    dict(id="c21-n-r6", canary=True, what="ScipyIVP names the integrator's state matrix before splitting it", file='cardillo/solver/scipy_ivp.py',
+         old="        t = sol.t\n        nt = len(t)\n        q = sol.y[: self.nq, :].T\n        u = sol.y[self.nq :, :].T\n",
+         new="        t = sol.t\n        nt = len(t)\n        y = sol.y\n        q = y[: self.nq, :].T\n        u = y[self.nq :, :].T\n"),
 ]
